@@ -1,7 +1,7 @@
 """C20 - the document graph stays a well-formed forest (syntactic premises of the inductive step)."""
 from vlib import factbase as fb
 from vlib import q
-from .common import pname, ctx, loc, match_arms_on, arms_by_variant, self_field, field_of
+from .common import pname, ctx, loc, match_arms_on, arms_by_variant, self_field, field_of, through_lets
 from . import c04
 
 GRAPHNODE = "liwe::graph::graph_node::GraphNode"
@@ -149,8 +149,11 @@ def rule_r2(facts, rep, rid="C20-R2"):
             out = []
             for y in fb.walk(b):
                 if y.get("k") == "mcall" and y["name"] in ("set_child_id", "set_next_id"):
-                    recv = y["recv"]
-                    on_cursor = recv.get("k") == "mcall" and recv["name"] == "node_mut" and recv["args"] and self_field(recv["args"][0]) == "id"
+                    # `let current = self.graph.node_mut(self.id); .. current.set_child_id(..)` is the same receiver, named
+                    recv = through_lets(c, y["recv"])
+                    while recv is not None and recv.get("k") in ("addrof", "unary"):
+                        recv = recv.get("e")
+                    on_cursor = recv is not None and recv.get("k") == "mcall" and recv["name"] == "node_mut" and recv["args"] and self_field(recv["args"][0]) == "id"
                     argv = c.vprov(y["args"][0])
                     of_node = q.has_call(argv, "GraphNode::id") and ("param", pname(f, 1)) in argv
                     out.append((y["name"], on_cursor, of_node))
@@ -436,6 +439,9 @@ def rule_r6(facts, rep, rid="C20-R6"):
         rep.saw_fn(f)
         m = ctx(f).mentions(f.body)
         miss = [n for n in need if not q.has_call(m, n)]
+        # the walk repeats: by a call to itself, or - the same walk - by a loop around the step
+        if name in miss and any(x.get("k") == "loop" and x.get("src") in ("Loop", "While") for x in fb.walk(f.body)):
+            miss.remove(name)
         extra = [n for n in forbid if q.has_call(m, n)]
         key = f.def_ + "|walks-prev-links"
         if miss or extra:
